@@ -197,6 +197,9 @@ def _temp(fi, name, here, strict):
         us = unpack_source(fi, name, here)
         if us is not None and isinstance(us[0], ast.Call):
             v = ast.Subscript(value=us[0], slice=ast.Constant(value=us[1]), ctx=ast.Load())
+    if v is not None and not _pure(v) and any(isinstance(x, ast.Call) and isinstance(x.func, ast.Name) and x.func.id.startswith('_') for x in ast.walk(v)):
+        # the only impure-looking part may be a call of a straight-line pure private helper: read it as the value it returns
+        v = see_through_value_helpers(fi, copy.deepcopy(v))
     if v is None or isinstance(v, ast.GeneratorExp) or not _pure(v):
         return None
     if fi._mutated_in_place(name):
@@ -269,7 +272,142 @@ def expand(fi, e, here=None, stop=(), strict=True, depth=10):
             if hasattr(x, a):
                 setattr(new, a, getattr(x, a))
         return new
-    return ex(e, depth, _comp_bound(e), here)
+    return see_through_value_helpers(fi, ex(e, depth, _comp_bound(e), here))
+
+
+# A call `_h(args)` of a module-level private helper whose body is straight
+# line - bindings `t = <pure expression>` of distinct fresh names followed by
+# one `return <expression>` - denotes the returned expression with the helper's
+# temporaries forward substituted and the parameters replaced by the arguments.
+# (The front end inlines such helpers only at statement level; as an operand of
+# a larger expression the call reaches the rules.)  Refused - the call is left
+# alone - whenever the substitution could change the value: decorated /
+# generator / star-args helpers, a parameter that is rebound, an impure
+# argument whose parameter is read more than once, a free name of the helper
+# that is a local of the caller, a comprehension variable that would capture a
+# name of an argument, recursion.
+
+def _value_helper(mod, name):
+    """(params, defaults, {temp: expression} in binding order, returned
+    expression) of the straight-line pure helper `name` of `mod`, or None."""
+    memo = mod.__dict__.setdefault('_c14_value_helpers', {})
+    if name in memo:
+        return memo[name]
+    memo[name] = None
+    if not name.startswith('_') or name.startswith('__'):
+        return None
+    defs = [s for s in mod.tree.body if isinstance(s, (ast.FunctionDef, ast.AsyncFunctionDef)) and s.name == name]
+    others = [s for s in mod.tree.body if not isinstance(s, ast.FunctionDef) and name in {
+        x.id for x in ast.walk(s) if isinstance(x, ast.Name) and isinstance(x.ctx, ast.Store)}]
+    if len(defs) != 1 or others or not isinstance(defs[0], ast.FunctionDef):
+        return None
+    h = defs[0]
+    a = h.args
+    if h.decorator_list or a.vararg or a.kwarg or a.posonlyargs or a.kwonlyargs:
+        return None
+    body = [s for s in h.body if not (isinstance(s, ast.Expr) and isinstance(s.value, ast.Constant)) and not isinstance(s, ast.Pass)]
+    if not body or not isinstance(body[-1], ast.Return) or body[-1].value is None:
+        return None
+    ps = [x.arg for x in a.args]
+    temps = {}
+    for s in body[:-1]:
+        if not (isinstance(s, ast.Assign) and len(s.targets) == 1 and isinstance(s.targets[0], ast.Name)):
+            return None
+        t = s.targets[0].id
+        if t in temps or t in ps or not _pure(s.value) or isinstance(s.value, ast.GeneratorExp):
+            return None
+        temps[t] = s.value
+    for x in ast.walk(h):
+        if isinstance(x, (ast.Yield, ast.YieldFrom, ast.Await, ast.Lambda, ast.NamedExpr, ast.Global, ast.Nonlocal)):
+            return None
+        if isinstance(x, ast.Call) and isinstance(x.func, ast.Name) and x.func.id == name:
+            return None
+        if isinstance(x, ast.Name) and isinstance(x.ctx, ast.Store) and x.id in ps:
+            return None
+    # a temporary must not be shadowed by a comprehension variable of the helper
+    bound = set()
+    for s in body:
+        bound |= _comp_bound(s)
+    if bound & (set(temps) | set(ps)):
+        return None
+    defaults = dict(zip(ps[len(ps) - len(a.defaults):], a.defaults)) if a.defaults else {}
+    memo[name] = (ps, defaults, temps, body[-1].value, bound)
+    return memo[name]
+
+
+class _SubstNames(ast.NodeTransformer):
+    def __init__(self, sub):
+        self.sub = sub
+
+    def visit_Name(self, n):
+        if isinstance(n.ctx, ast.Load) and n.id in self.sub:
+            return copy.deepcopy(self.sub[n.id])
+        return n
+
+
+def _loads(e, name):
+    return sum(1 for x in ast.walk(e) if isinstance(x, ast.Name) and x.id == name and isinstance(x.ctx, ast.Load))
+
+
+def see_through_value_helpers(fi, e, depth=2):
+    """`e` with every call of a straight-line pure private helper of the
+    module replaced by the value the helper returns (see above)."""
+    if depth <= 0 or not any(isinstance(x, ast.Call) and isinstance(x.func, ast.Name) and x.func.id.startswith('_') for x in ast.walk(e)):
+        return e
+    mod = fi.mod
+    caller_locals = set(params(fi.fn)) | {x.id for x in ast.walk(fi.fn) if isinstance(x, ast.Name) and isinstance(x.ctx, ast.Store)}
+
+    def value_of(call):
+        vh = _value_helper(mod, call.func.id)
+        if vh is None or call.func.id in caller_locals:
+            return None
+        ps, defaults, temps, ret, bound = vh
+        if len(call.args) > len(ps) or any(isinstance(x, ast.Starred) for x in call.args) or any(k.arg is None for k in call.keywords):
+            return None
+        sub = dict(zip(ps, call.args))
+        for k in call.keywords:
+            if k.arg in sub or k.arg not in ps:
+                return None
+            sub[k.arg] = k.value
+        for p in ps:
+            if p not in sub:
+                if p not in defaults:
+                    return None
+                sub[p] = defaults[p]
+        # forward substitution of the helper's temporaries, in binding order
+        env = {}
+        for t, v in temps.items():
+            env[t] = _SubstNames(env).visit(copy.deepcopy(v))
+        val = _SubstNames(env).visit(copy.deepcopy(ret))
+        arg_names = set()
+        for p, av in sub.items():
+            arg_names |= {x.id for x in ast.walk(av) if isinstance(x, ast.Name)}
+            if not _pure(av) and _loads(val, p) > 1:
+                return None
+        if bound & arg_names:
+            return None
+        free = {x.id for x in ast.walk(val) if isinstance(x, ast.Name)} - set(ps) - bound
+        if free & caller_locals:
+            return None
+        return ast.copy_location(_SubstNames(sub).visit(val), call)
+
+    class See(ast.NodeTransformer):
+        hit = False
+
+        def visit_Call(self, node):
+            self.generic_visit(node)
+            if isinstance(node.func, ast.Name) and node.func.id.startswith('_'):
+                v = value_of(node)
+                if v is not None:
+                    self.hit = True
+                    return v
+            return node
+    tr = See()
+    out = tr.visit(e)
+    if not tr.hit:
+        return out
+    ast.fix_missing_locations(out)
+    return see_through_value_helpers(fi, out, depth - 1)
 
 
 class _NormCalls(ast.NodeTransformer):
